@@ -17,7 +17,9 @@ EXPLANATION = (
     "outside the program's own I/O built-ins; (R4) every value stored into a variable or used as a FOR "
     "limit is converted to the target's type first (shared with C06.R2); (R5) the VM's PRINT state "
     "is statement-scoped: every PrintState field a per-item operation modifies is written again by "
-    "reset() or print_end().")
+    "reset() or print_end(); (R6) the implicit numeric conversions test the range of the rounded value "
+    "they convert, so no value that rounds into range ends the program with a spurious Overflow "
+    "(shared with C06.R7).")
 NOT_DECIDED = ["agreement of printed output with the reference semantics for every program and value"]
 
 # operator name -> Ordering values for which the comparison holds
@@ -337,3 +339,4 @@ def run(ctx):
     from . import c06
     c06.r2_store_routes(ctx, "C01.R4")
     r5_print_state_is_statement_scoped(ctx)
+    c06.r7_guard_tests_converted_value(ctx, "C01.R6")
